@@ -87,7 +87,8 @@ def check_one(r, data, extra, charset):
 
     ev = dict(extra)
     if data is not None:
-        ev["data"] = data
+        # (the key as an application gets it from a parser or builds it at run time: an equal string, not the literal's object)
+        ev["".join(("da", "ta")) if len(data) % 2 else "data"] = data
     orig = dict(ev)
     if not orig or orig == {"data": ""}:
         return  # the empty dictionary / a lone empty data string is no event (no EventSource would dispatch it)
@@ -466,9 +467,10 @@ def run_shard(desc, tier):
             for extra in subsets():
                 for charset in ("utf-8", "latin-1", "utf-16-le" if False else "utf-8"):
                     check_one(r, data, extra, charset)
-        for name in ("x y", "é", "a:b", " sp"):
+        for name in ("x y", "é", "a:b", " sp", "cpu%", "a%%b", "%b", "%s", "%(x)s", "100%", "%", "{0}", "{", "$x", "\\n", "\\"):
             check_one(r, "d", {"event": name}, "utf-8")
             check_one(r, "d", {"id": name}, "utf-8")
+            check_one(r, "l1\nl2", {"id": name, "event": name}, "utf-8")
         # integer retry values around every power of two and of ten up to 2^70: the digits a client reads are the integer's
         for n in sorted({2 ** k + d for k in range(0, 71) for d in (-1, 0, 1)} | {10 ** k + d for k in range(0, 22) for d in (-1, 0, 1)}):
             if n >= 0:
